@@ -168,8 +168,17 @@ def _load1(ctx, cfg, custom):
         calls.append((loc, map_location))
         extra_kwargs.append(dict(k))
         return file
+    objs_before = {(n, k): p for n in dst.networks for k, p in getattr(dst, n).named_parameters()}
     with mock.patch.object(torch, "load", fake_load):
         r = dst.load("LOCATION")
+    # loading restores VALUES into the state as it is: its networks and their parameter objects stay the same objects, so
+    # whoever holds them (an optimizer of a run in progress that restores a checkpoint from a callback) keeps training
+    # this state, and the loaded values do not alias the file's tensors
+    objs_after = {(n, k): p for n in dst.networks for k, p in getattr(dst, n).named_parameters()}
+    ctx.holds("load/the state's parameter objects are kept (values copied in, objects not replaced)[%s]" % kind,
+              set(objs_after) == set(objs_before) and all(objs_after[key] is objs_before[key] for key in objs_before))
+    ctx.holds("load/loaded parameters do not share storage with the tensors of the file[%s]" % kind,
+              all(objs_after[(n, k)].data_ptr() != file[n][k].data_ptr() for (n, k) in objs_after if k in file.get(n, {})))
     # what is loaded must not stay backed by the file: the file may be rewritten (the next checkpoint of a run, another
     # model saved under the same name) while the loaded state lives on
     ctx.holds("load/the file is read into memory, not memory-mapped (the loaded state does not depend on the file afterwards)[%s]" % kind,
